@@ -433,6 +433,38 @@ func normalize(v any) any {
 	return v
 }
 
+// scriptEqual is the == of scripts. Numbers are compared by value across
+// int64 and float64. Values of different types and values of types that can
+// not be compared with the Go == operator (slices and maps) are not equal. It
+// never panics.
+func scriptEqual(left, right any) bool {
+	switch tl := left.(type) {
+	case int64:
+		switch tr := right.(type) {
+		case int64:
+			return tl == tr
+		case float64:
+			return float64(tl) == tr
+		}
+		return false
+	case float64:
+		switch tr := right.(type) {
+		case int64:
+			return tl == float64(tr)
+		case float64:
+			return tl == tr
+		}
+		return false
+	case nil, bool, string, nothing:
+		return left == right
+	}
+	if lt := reflect.TypeOf(left); lt != reflect.TypeOf(right) || !lt.Comparable() {
+		return false
+	}
+	defer func() { _ = recover() }() // a comparable type can still hold an uncomparable dynamic value
+	return left == right
+}
+
 func expandStack(stack []any, mi int) []any {
 	nstack := make([]any, len(stack))
 	for i, v := range stack {
@@ -467,35 +499,9 @@ func evalStack(sstack []any) []any {
 		case group.code:
 			sstack[i] = left
 		case eq.code:
-			if left == right {
-				sstack[i] = true
-			} else {
-				sstack[i] = false
-				switch tl := left.(type) {
-				case int64:
-					if tr, ok := right.(float64); ok {
-						sstack[i] = ok && float64(tl) == tr
-					}
-				case float64:
-					tr, ok := right.(int64)
-					sstack[i] = ok && tl == float64(tr)
-				}
-			}
+			sstack[i] = scriptEqual(left, right)
 		case neq.code:
-			if left == right {
-				sstack[i] = false
-			} else {
-				sstack[i] = true
-				switch tl := left.(type) {
-				case int64:
-					if tr, ok := right.(float64); ok {
-						sstack[i] = ok && float64(tl) != tr
-					}
-				case float64:
-					tr, ok := right.(int64)
-					sstack[i] = ok && tl != float64(tr)
-				}
-			}
+			sstack[i] = !scriptEqual(left, right)
 		case lt.code:
 			sstack[i] = false
 			switch tl := left.(type) {
@@ -680,9 +686,17 @@ func evalStack(sstack []any) []any {
 			}
 		case in.code:
 			sstack[i] = false
-			if list, ok := right.([]any); ok {
+			switch list := right.(type) {
+			case []any:
 				for _, ev := range list {
-					if left == ev {
+					if scriptEqual(left, ev) {
+						sstack[i] = true
+						break
+					}
+				}
+			case gen.Array:
+				for _, ev := range list {
+					if scriptEqual(left, normalize(ev)) {
 						sstack[i] = true
 						break
 					}
